@@ -354,6 +354,8 @@ def run(ctx):
     # ------------------------------------------------------------------ C07.e
     shared.placement_query_rule(ctx, 'C07.h', ['cirq-core/cirq/transformers/routing/', 'cirq-core/cirq/transformers/target_gatesets/', 'cirq-google/cirq_google/transformers/'], floor=1)
     ctx.decided.append('C07.h routing / compilation code schedules operations with the key-aware placement query')
+    shared.aqt_single_qubit_shortcut_rule(ctx, 'C07.i')
+    ctx.decided.append('C07.i the hard-wired single-qubit replacement of the AQT target gateset equals the gate it replaces (model powers of H)')
     ctx.rule('C07.e', 'body-for-operation substitution: a transformer may treat the body (`.circuit`) of a CircuitOperation as standing for '
              'the operation (expanding it into operations, or handing it to a rewriter as a merged component) only under a test that its '
              'own intermediate/merged tag is on the operation - otherwise repetitions and maps of a user sub-circuit are ignored', floor=4, style='RG')
